@@ -89,4 +89,26 @@ CHECKS = {
        "executed steps and handler arguments equal Run's.",
   note="S = int, A = []int; errors compared by identity; function parameters come from a small table.",
   technique="TLC checks laws on a reference semantics over a program space; exported + random programs replayed on the real package and validated by TLC"),
+ "C01": dict(
+  text="EffectSpec.tla defines U and FM as the hand-written Go does and every derived combinator by its defining equation; TLC "
+       "(MCEffect) checks left/right identity, associativity, Map = FlatMap(unit . f) and that each definition equals the "
+       "independent first-failure oracle on 891 648 argument tuples x continuation tables. TLC exports a space of 1 349 semantic "
+       "programs; each is run with EVERY fitting function of try, option and either (Map/Lift/Method/With/Ap/Zip*/MapN/LiftAN/"
+       "FlatMapN/LiftMN, N=2..9, Sequence*/FlatMap/LiftM/Flatten/Compose2..5/Traverse*/FoldM/ApFunc/ApplicativeN/ChainN/Recover*/Or*), "
+       "plus seeded random nested programs; TLC (TraceEffect) accepts a run only if result and callback order equal "
+       "EffectSpec!Eval. A combinator that never returns (stack exhaustion) is attributed to its case and reported. The same "
+       "laws for Seq/List/Iterator, StateT and lazy.Eval are carried by SeqSpec, StateTSpec and EvalSpec (C12, C17, C16).",
+  note="Payload []int; functions from a small table. Not covered: the reader monads fn0/fn1 and the SeqT/OptionT transformer "
+       "functions (try_seqt.go, try_optiont.go); Seq/List/Iterator only through their own checks.",
+  technique="TLC checks laws + defining equations against an oracle; TLC-exported programs x all fitting library functions replayed and validated by TLC"),
+ "C02": dict(
+  text="For every arity 2..9 and EVERY subset of failing positions (position i fails with its own error) the combinators "
+       "MapN/LiftAN/FlatMapN/LiftMN/Zip*/Sequence* of try, option and either are run; TLC-exported programs add every val/supplier "
+       "pattern of ApFunc and the ApplicativeN/ChainN builders, continuations, Traverse*/FoldM, Recover*/Or*/OrElse* and "
+       "try.Of/Call/CallUnit with panic values of three types; seeded random nested programs on top. Each run logs the result, the "
+       "identity of the returned error and the ids of the callbacks invoked in order; TLC (TraceEffect) accepts only: the first "
+       "failing operand's own error, no callback after a failure, earlier ones exactly once, handlers only on failure, panics "
+       "as failures exposing the panic value. MCEffect proves the definitional semantics equal to that oracle.",
+  note="future.Apply/Apply2 panics are checked in C06. Operands are values (evaluated by the caller); only callbacks can be skipped.",
+  technique="exhaustive failure-subset enumeration per arity on the real packages, validated by TLC against the first-failure oracle with a call log"),
 }
